@@ -6,6 +6,7 @@ import sys, os, json, subprocess, shutil, re
 VERIF = os.path.dirname(os.path.dirname(os.path.abspath(__file__)))
 prop, var, checks = sys.argv[1], sys.argv[2], sys.argv[3].split(',')
 tier = sys.argv[4] if len(sys.argv) > 4 else 'quick'
+destv = sys.argv[5] if len(sys.argv) > 5 else var
 src = '/tmp/seed-%s/out/%s' % (prop, var)
 r = subprocess.run([os.path.join(VERIF, 'bin', 'seed_verify.sh'), '/tmp/seed-' + prop, var], capture_output=True, text=True, errors='replace')
 res = [l for l in r.stdout.splitlines() if l.startswith('RESULT')]
@@ -18,7 +19,7 @@ st = subprocess.run([os.path.join(VERIF, 'bin', 'selftest.py'), '--tier', tier, 
 print(st.stdout[-1500:])
 line = [l for l in st.stdout.splitlines() if l.startswith('patch ')]
 det = json.loads(line[0].split(' ', 1)[1]) if line else {}
-dst = os.path.join(VERIF, 'seeded', '%s-%s' % (prop, var))
+dst = os.path.join(VERIF, 'seeded', '%s-%s' % (prop, destv))
 shutil.rmtree(dst, ignore_errors=True)
 os.makedirs(dst)
 for f in os.listdir(src):
@@ -28,7 +29,7 @@ for f in os.listdir(src):
         shutil.copy(os.path.join(src, f), os.path.join(dst, f))
 notes = open(os.path.join(src, 'notes.md'), errors='replace').read() if os.path.exists(os.path.join(src, 'notes.md')) else ''
 head = subprocess.run(['git', '-C', '/repo', 'rev-parse', '--short', 'HEAD'], capture_output=True, text=True, errors='replace').stdout.strip()
-meta = dict(id='%s-%s' % (prop, var), property=prop, checks=checks,
+meta = dict(id='%s-%s' % (prop, destv), property=prop, checks=checks,
             origin='independent sub-agent given only the property text and a private worktree of /repo at %s' % head,
             needs_to_manifest=notes,
             confirmed=dict(by='bin/seed_verify.sh in a scratch worktree', result=res[0] if res else '',
